@@ -22,7 +22,7 @@ RULE = (
     "Evidence: maximum number of threads simultaneously inside Z3 calls, guard exits, yield injections.  "
     "Non-trivial: the history has an add and a judged query and ran while at least one other thread was alive; "
     "distinct by (configuration, history) hash."
-    " Session 4: fresh-symbol round (same base names in every thread, symbols handed to the neighbour, backends asked to drop caches half-way)."
+    " Session 4: fresh-symbol round (same base names in every thread, symbols handed to the neighbour, backends asked to drop caches half-way). In oracle (2) a min/max answer is compared as the n-bit pattern it stands for (C11's criterion): which of claripy's routes reports a signed optimum (-8 from the search, 8 from a shortcut or cached models) depends on the models Z3 returned, alone as well as among threads."
 )
 ASSUMPTIONS = [
     "a finite sample of real schedules (the interleavings are chosen by the OS scheduler under the listed switch intervals and yield injection); C19 covers the guard exhaustively",
@@ -57,6 +57,13 @@ def _det(st, outcome):
     if kind != "ok":
         return (kind,)
     op, val = st["op"], outcome[1]
+    if op in ("min", "max") and isinstance(val, int) and not isinstance(val, bool):
+        # an optimum is an n-bit pattern (C11): claripy reports the same signed optimum as -8 from the backend's search
+        # and as 8 from a single-solution shortcut, a concrete operand or cached models, and which of these routes
+        # answers depends on the models Z3 happened to return - in one thread as well
+        from vf.ref import bvsem
+
+        return ("ok", val & ((1 << bvsem.width(st["e"])) - 1))
     if op in ("satisfiable", "min", "max", "solution", "is_true", "is_false"):
         return ("ok", val)
     if op == "eval":
